@@ -133,7 +133,9 @@ def main(tier):
     ]
     seed = seed_from_env()
     specs = [s for s in selected_specs() if not (s.kind == "mdcpdp" and s.D >= 2)]
-    items = [(s.key, tier, seed) for s in specs]
+    alph = "thorough" if tier == "quick" else "deep"  # cheap check: one alphabet notch deeper than its tier name
+    items = [(s.key, alph, seed) for s in specs]
+    rep.extra["alphabet"] = alph
     parts = pmap(unit, items)
     from . import c05_extra
 
